@@ -9,7 +9,8 @@ REQ_S = ["Verif.lib.PyLite", "Verif.gen.SendGen", "Verif.lib.Send"]
 # faults that belong to one call (the property's catalogue).  kind -> list of parameter dicts
 MSGS = [["ascii", 0], ["ascii", 5], ["ascii", 999], ["ascii", 1000], ["ascii", 1001], ["ascii", 5000], ["latin", 1000],
         ["latin", 499], ["latin", 500], ["latin", 501], ["cjk", 400], ["astral", 300], ["astral", 249], ["astral", 250],
-        ["mixed", 700], ["asciithen", 301], ["asciithen", 302], ["asciithen", 303], ["nul", 10]]
+        ["mixed", 700], ["asciithen", 301], ["asciithen", 302], ["asciithen", 303], ["nul", 10], ["surrogate", 1],
+        ["surrogate", 120]]
 CLASSES = ["ValueError", "KeyError", "MyError", "MyDeepError", "CafeError", "LongNameError", "OSError"]
 
 
@@ -23,6 +24,8 @@ def catalogue():
     for d in (0, 1, 2, 3):
         cat.append(dict(kind="illtyped", depth=d))
     cat.append(dict(kind="mixed-keys"))
+    for d in (0, 2):
+        cat.append(dict(kind="arg-surrogate", depth=d))
     for i, m in enumerate(MSGS):
         cat.append(dict(kind="raise", cls=CLASSES[i % len(CLASSES)], msg=m))
     for c in ("KeyError", "MyDeepError", "LongNameError"):
@@ -36,6 +39,8 @@ def catalogue():
 
 
 # inputs on which the current tree is known (or was known) to violate the property; each has its own signature
+# 1-3 were repaired in /repo ("fix: a remote exception that cannot be rendered or encoded still fails only its call",
+# "fix: text that has no UTF-8 form fails that one object, not the connection"): regression witnesses now.
 SPECIAL = [
     ("str-raises", dict(kind="raise", cls="BadStrError", msg=["ascii", 3])),
     ("remote-message-not-utf8-encodable", dict(kind="raise", cls="ValueError", msg=["surrogate", 1])),
@@ -90,11 +95,10 @@ def run(ctx):
         t0 = time.time()
         corr_failure(ctx, impl)
         ctx.extra["corr_failure_s"] = round(time.time() - t0, 1)
-    if not ok and len(ctx.failures) == before:
+    if not ok:
+        # reported even when a failing input was found as well: a known finding must not mask a broken proof
         ctx.fail("proof-broken", "theorem closure props/C10.vo no longer builds against the regenerated gen/FailureGen.v, "
                  "gen/SendGen.v:\n" + log[-2500:], replay=dict(log=log[-6000:]), has_input=False)
-    elif not ok:
-        ctx.note("proof broken AND a failing input was found (reported above)")
 
 
 # ------------------------------------------------------------------------------------------------ expectations
@@ -105,7 +109,8 @@ def qual(c):
 
 def trunc_expect(text, limit):
     """what the property allows for a field with byte limit `limit`: the text itself, or a maximal whole-character
-    prefix followed by '..' that fits"""
+    prefix followed by '..' that fits (text that has no UTF-8 form arrives with \\udXXX escapes)"""
+    text = text.encode("utf-8", "backslashreplace").decode("utf-8")
     if len(text.encode("utf-8")) <= limit:
         return lambda got: got == text
     def chk(got):
@@ -117,7 +122,7 @@ def trunc_expect(text, limit):
 
 
 REMOTE_VIOLATION = ("illtyped", "unknown-method-typed", "unknown-object", "result-violates-callee")
-LOCAL_VIOLATION = ("unserializable", "slicer-raises", "result-violates-caller")
+LOCAL_VIOLATION = ("unserializable", "slicer-raises", "result-violates-caller", "arg-surrogate")
 
 
 def judge_faulty(impl, spec, d, opts):
@@ -337,6 +342,10 @@ def tree_of(impl, v):
     if isinstance(v, (int, float, bytes)):
         return "Tok 0"
     if isinstance(v, str):
+        try:
+            v.encode("utf-8")
+        except UnicodeEncodeError:
+            return "Sub [Tok 0; RaiseV]"       # UnicodeSlicer: 'unicode', then sliceBody raises Violation
         return "Sub [Tok 0; Tok 0]"
     if v is None:
         return "Sub [Tok 0]"
@@ -366,6 +375,8 @@ def call_tree(impl, spec):
         args = [{0: "notalist", 1: [1, "x", 3], 2: [[[1]], "x"], 3: [[[1]], [["x"]], [[2]]]}[spec["depth"]]]
     elif k == "mixed-keys":
         args = [{1: 2, 'a': 3}]
+    elif k == "arg-surrogate":
+        args = [impl.nest(spec["depth"], u"ab\udcffcd")]
     elif k == "raise":
         args = [spec["cls"], spec["msg"][0], spec["msg"][1]]
     elif k == "raise-noargs":
@@ -420,7 +431,7 @@ Eval vm_compute in map (fun c => let s := run (init (fst c)) (flat_map events_of
             # which calls' sends were aborted on the real side: the caller saw a local, uncopied Violation that is not about the answer
             real_log = []
             for s, d in zip(specs, r["results"]):
-                aborted = s["kind"] in ("unserializable", "slicer-raises") and d is not None and not d["ok"] and not d["copied"]
+                aborted = s["kind"] in ("unserializable", "slicer-raises", "arg-surrogate") and d is not None and not d["ok"] and not d["copied"]
                 real_log.append(1 if aborted else 0)
             real_log.append(0)
             real_up = not r["disconnected"][0]
@@ -492,9 +503,12 @@ def failure_cases(ctx, impl):
         for ch in ("t", u"é", u"\U0001F600"):
             tb = (ch * 7 + "\n") * (n // 8) + ch * (n % 8)
             cases.append(("KeyError", "k", True, None, tb))
-    cases.append(("ValueError", u"ab\udcffcd", False, None, None))        # UnicodeEncodeError
+    cases.append(("ValueError", u"ab\udcffcd", False, None, None))        # text without a UTF-8 form: escaped
     cases.append(("ValueError", u"\udcff" * 600, True, None, None))
-    cases.append(("BadStrError", "x", False, None, None))                  # str() raises
+    cases.append(("OSError", u"x" * 990 + u"\ud800\udfff" * 3, False, None, None))   # the cut falls inside an escape
+    cases.append(("MyError", "m", False, [u"p\udc80" * 40, "builtins.object"], None))
+    cases.append(("BadStrError", "x", False, None, None))                  # str() raises: reflect.safe_str's text
+    cases.append(("BadStrError", "x", True, None, None))
     for i in range(ctx.n(40, 600)):
         k = ctx.rng.choice(["ascii", "latin", "cjk", "astral", "mixed", "asciithen"])
         n = ctx.rng.choice([ctx.rng.randrange(0, 40), ctx.rng.randrange(240, 260), ctx.rng.randrange(320, 340), ctx.rng.randrange(490, 510),
@@ -516,41 +530,30 @@ def corr_failure(ctx, impl):
         return acc
     obs = []
     lines = []
-    from twisted.python import reflect
     for cls, msg, unsafe, parents, tb in cases:
         c = impl.EXC_CLASSES[cls]
-        try:
-            st, f = impl.failure_state(c, msg, unsafe, parents, tb)
+        st, inp = impl.failure_state(c, msg, unsafe, parents, tb)
+        if isinstance(st, dict):
             o = [1, [len(st["type"]), h(st["type"])], [len(st["value"]), h(st["value"])], [len(st["traceback"]), h(st["traceback"])],
                  [[len(p), h(p)] for p in st["parents"]]]
             if not (len(st["type"]) <= 200 and len(st["value"]) <= 1000 and len(st["traceback"]) <= 2000 and all(len(p) <= 200 for p in st["parents"])):
                 ctx.fail("oracle/failure-misreported", "getStateToCopy produced a field that the peer's FailureConstraint rejects: type %d value %d "
                          "traceback %d parents %s bytes for %s(%d chars)" % (len(st["type"]), len(st["value"]), len(st["traceback"]),
                                                                              [len(p) for p in st["parents"]], cls, len(msg)),
-                         replay=dict(cls=cls, msg=msg[:50], n=len(msg), unsafe=unsafe))
-        except UnicodeEncodeError:
-            f = None
-            o = [0, "UnicodeEncodeError"]
-        except RuntimeError as e:
-            f = None
-            o = [0, "RuntimeError"]
+                         replay=dict(cls=cls, msg=ascii(msg[:50]), n=len(msg), unsafe=unsafe))
+        else:
+            o = [0, st]
+            ctx.fail("oracle/sibling-affected/getStateToCopy-raises", "FailureSlicer.getStateToCopy raised %s for %s(%s.. %d chars): inside "
+                     "Banana.produce this drops the connection" % (st, cls, ascii(msg[:10]), len(msg)),
+                     replay=dict(cls=cls, msg=ascii(msg[:50]), n=len(msg), unsafe=unsafe))
         obs.append(o)
-        # model input: what getStateToCopy reads from the Failure
-        try:
-            raise c(msg)
-        except Exception:
-            from twisted.python import failure as twf
-            ff = twf.Failure()
-        try:
-            estr = "(Ok %s)" % cps(str(ff.value))
-        except RuntimeError:
-            estr = '(Exc "RuntimeError"%string)'
-        stack = tb if tb is not None else (f.getTraceback() if (f is not None and unsafe) else (ff.getTraceback() if unsafe else ""))
-        # the traceback of `f` (raised inside failure_state) is what the real code used; keep exactly that text
-        par = parents if parents is not None else list(ff.parents)
-        lines.append("(%s, Build_exc %s %s %s %s)" % (coq_bool(unsafe), cps(reflect.qual(c)), estr, cps(stack), coq_list([cps(p) for p in par])))
-        ctx.case(["failure", cls, len(msg), msg[:3], unsafe, parents is not None, tb is not None and len(tb)], nontrivial=True)
-        ctx.hist("failure_case", "raises" if o[0] == 0 else "truncated-value" if len(msg.encode("utf-8", "replace")) > 1000 else "fits")
+        estr = "(Ok %s)" % cps(inp["str"][1]) if inp["str"][0] == "ok" else '(Exc "%s"%%string)' % inp["str"][1]
+        lines.append("(%s, Build_exc %s %s %s %s %s)" % (coq_bool(unsafe), cps(inp["type"]), estr, cps(inp["fallback"]), cps(inp["stack"]),
+                                                         coq_list([cps(p) for p in inp["parents"]])))
+        ctx.case(["failure", cls, len(msg), ascii(msg[:3]), unsafe, parents is not None, tb is not None and len(tb)], nontrivial=True)
+        ctx.hist("failure_case", "raises" if o[0] == 0 else "str-raises" if inp["str"][0] != "ok" else
+                 "escaped" if any(0xD800 <= ord(ch) < 0xE000 for ch in msg) else
+                 "truncated-value" if len(msg.encode("utf-8", "replace")) > 1000 else "fits")
     shard = 60
     nbad = 0
     for si in range(0, len(lines), shard):
@@ -582,8 +585,8 @@ Eval vm_compute in map (fun c => match get_state (fst c) (snd c) with
                 nbad += 1
                 if nbad <= 2:
                     cls, msg, unsafe, parents, tb = cases[si + j]
-                    ctx.fail("correspondence/failure-state", "lib/Failure.v and FailureSlicer.getStateToCopy disagree for %s(%r.. %d chars) unsafe=%s: "
-                             "model %s implementation %s" % (cls, msg[:8], len(msg), unsafe, m, o),
-                             replay=dict(cls=cls, msg_head=msg[:20], n=len(msg), unsafe=unsafe, model=m, impl=o), has_input=False)
+                    ctx.fail("correspondence/failure-state", "lib/Failure.v and FailureSlicer.getStateToCopy disagree for %s(%s.. %d chars) unsafe=%s: "
+                             "model %s implementation %s" % (cls, ascii(msg[:8]), len(msg), unsafe, m, o),
+                             replay=dict(cls=cls, msg_head=ascii(msg[:20]), n=len(msg), unsafe=unsafe, model=m, impl=o), has_input=False)
     ctx.extra["failure_correspondence_cases"] = len(lines)
     ctx.extra["failure_correspondence_disagreements"] = nbad
